@@ -3,6 +3,7 @@
 Monitors:
   coef_finite      ETDRK1-4 coefficients and exp terms finite for Re(z) <= 0 up to |z| = 1e15 and at z = 0, float32 and float64 sessions
   session_precision  real symbols 0 .. -1e15 (incl. exact landmarks): coefficients are exact to the SESSION's rounding (reuses the C02 phi-function oracle)
+  step_precision_x64  in the x64 session one whole step of every class agrees with the independent phi-form reference at the 1e-12 level
   result_dtype     every class x order: state results carry the session's default float dtype, spectra the matching complex dtype
   cross_precision  the same step in a float32 session vs float64 (same process, jax.enable_x64 context): difference <= c * eps32 * (measured amplification of the
                    step map + 1 + max|Im z|), the amplification being measured in float64 on the model side
@@ -17,7 +18,7 @@ from rv.props.c06 import make_states
 PROP = "C19"
 RULE = ("cases = ETDRK order x z family (down to -1e15, complex with Re z <= 0, exactly 0) x session; every exported class x D x order 0-4 x session; stiff configurations; distinct = "
         "(monitor, class | family, D, order, session); non-trivial = non-zero state / |z| range reaching >= 1e6")
-REQUIRED = {"coef_finite": {"quick": 60, "thorough": 250}, "session_precision": {"quick": 100, "thorough": 300}, "result_dtype": {"quick": 150, "thorough": 600}, "cross_precision": {"quick": 70, "thorough": 300},
+REQUIRED = {"coef_finite": {"quick": 60, "thorough": 250}, "session_precision": {"quick": 100, "thorough": 300}, "step_precision_x64": {"quick": 50, "thorough": 200}, "result_dtype": {"quick": 150, "thorough": 600}, "cross_precision": {"quick": 70, "thorough": 300},
             "zero_state": {"quick": 70, "thorough": 300}, "stiff_finite": {"quick": 20, "thorough": 120}}
 ASSUMPTIONS = ["the float64 reference of the cross-precision monitor is computed in the same process under jax.enable_x64(True)",
                "'never silently falls back to another precision' is decided jointly with the 1e-11-level float64 comparisons of the other monitors (a float32 detour inside a float64 session would show there)"]
@@ -131,6 +132,21 @@ def run_cls(case, bus, ex):
     okz = np.all(np.isfinite(z)) and (forced or polyconst or order == 0 and False or float(np.max(np.abs(z))) == 0.0)
     bus.judge("zero_state", 0.0 if okz else 1.0, 0.5, sig + ("forced" if (forced or polyconst) else "unforced",), sample=dict(info, max_abs=float(np.max(np.abs(z)))), witness=dict(info, max_abs=float(np.max(np.abs(z)))))
     if x64:
+        # ---- double-precision faithfulness of a whole step: independent phi-form reference (mpmath phi functions, the stepper's own nonlinear term as a black box).
+        # A float32 detour anywhere inside the step of an x64 session shows up here at the 1e-7 level while every dtype stays *64.
+        from rv.refmodel import etdrk_ref as R
+        integ = st._integrator
+        rec = taps.etdrk_intent(integ)
+        if rec is not None and N ** D <= 600 and name != "stepper.Wave":      # Wave overrides step_fourier (its exact propagator is judged in C01)
+            Lop = np.asarray(rec["linear_operator"]).astype(complex)
+            dtv = float(rec["dt"])
+            uh = np.fft.rfftn(U[0], axes=G.axes(D))
+            nf = getattr(integ, "_nonlinear_fun", None)
+            Nf = (lambda w: np.asarray(nf(jnp.asarray(w)))) if nf is not None else (lambda w: 0 * w)
+            ref = R.step(rec["order"], dtv, Lop, Nf, uh)
+            got = np.asarray(st.step_fourier(jnp.asarray(uh)))
+            Sx = float(np.max(np.abs(uh)) + abs(dtv) * np.max(np.abs(Nf(uh)))) + 1e-300
+            bus.judge("step_precision_x64", float(np.max(np.abs(got - ref))) / Sx, 4e-12 * (1 + min(float(np.max(np.abs(dtv * Lop))), 1e3)), sig, sample=dict(info, S=Sx), witness=dict(info, err=float(np.max(np.abs(got - ref))), S=Sx))
         return
     # ---- cross precision (this is the float32 session): reference and amplification in float64
     o32 = np.asarray(o).astype(np.float64)
